@@ -1,4 +1,5 @@
 import MuscleModel.Reflector.IndexProofsReorder
+import MuscleModel.Reflector.IndexProofsClone
 import MuscleModel.Engines.Srv
 
 /-!
@@ -137,6 +138,12 @@ inductive Reach : Server → Prop
   | detach {sv : Server} (sid : Nat) : Reach sv → Reach (detach sv sid)
   | cmd {sv : Server} (sid : Nat) (c : Cmd) : Reach sv → Reach (runCmd sv sid c)
   | push {sv : Server} : Reach sv → Reach (pushAll sv)
+  /-- a server-side `CloneDataNodeSubtree` by session `sid` (any source path, destination clauses, ADDTOINDEX or not) -/
+  | clone {sv : Server} (sid : Nat) (src dest : List Bytes) (ati : Bool) :
+      Reach sv → Reach (cloneDataNodeSubtree sv sid src dest ati).1
+  /-- a server-side `RestoreNodeTreeFromMessage` by session `sid` of ANY saved tree (not only one `saveTree` wrote) -/
+  | restore {sv : Server} (sid : Nat) (t : Node) (dest : List Bytes) (ati : Bool) (maxDepth : Nat) :
+      Reach sv → Reach (restoreNodeTree sv sid t dest ati maxDepth).1
   /-- `pump` empties the inboxes -/
   | sessions {sv : Server} (ss : List Sess) : Reach sv → Reach { sv with sessions := ss }
 
@@ -147,6 +154,8 @@ theorem treeInv_reach {sv : Server} (h : Reach sv) : TreeInv sv := by
   | detach sid _ ih => exact treeInv_detach sid ih
   | cmd sid c _ ih => exact treeInv_runCmd sid c ih
   | push _ ih => exact treeInv_pushAll ih
+  | clone sid src dest ati _ ih => exact treeInv_cloneDataNodeSubtree sid src dest ati ih
+  | restore sid t dest ati md _ ih => exact treeInv_restoreNodeTree sid t dest ati md ih
   | sessions ss _ ih => exact ih
 
 
@@ -162,6 +171,23 @@ theorem treeInv_setm (sid : Nat) (p : Bytes) (vs : List Nat) {sv : Server} (h : 
     TreeInv (vs.foldl (fun sv v => runCmd sv sid (.set p v false)) sv) :=
   ix_foldl_inv _ TreeInv (fun _ _ hsv => treeInv_runCmd sid _ hsv) vs sv h
 
+theorem treeInv_subtreeOp {st : St} (r : Server × CStat) (h : TreeInv st.sv) (hr : TreeInv r.1) :
+    TreeInv (subtreeOp st r).1.sv := by
+  unfold subtreeOp
+  split
+  · exact h
+  · exact treeInv_pushAll hr
+
+theorem treeInv_subtreeStep {st : St} (sl sid : Nat) (op : String) (toks : List String) (h : TreeInv st.sv) :
+    TreeInv (subtreeStep st sl sid op toks).1.sv := by
+  unfold subtreeStep
+  repeat' split
+  all_goals first
+    | exact h
+    | exact treeInv_subtreeOp _ h (treeInv_cloneDataNodeSubtree _ _ _ _ h)
+    | exact treeInv_subtreeOp _ h (treeInv_restoreNodeTree _ _ _ _ _ h)
+    | exact treeInv_pushAll (treeInv_updSess _ _ h)
+
 /-- one op line of the engine `srv` (whatever its tokens) -/
 theorem treeInv_step {st : St} (toks : List String) (h : TreeInv st.sv) : TreeInv (step st toks).1.sv := by
   unfold step
@@ -174,6 +200,7 @@ theorem treeInv_step {st : St} (toks : List String) (h : TreeInv st.sv) : TreeIn
     | exact treeInv_detach _ h
     | exact treeInv_pushAll (treeInv_batch _ _ h)
     | exact treeInv_pushAll (treeInv_setm _ _ _ h)
+    | exact treeInv_subtreeStep _ _ _ _ h
     | exact treeInv_pushAll (treeInv_runCmd _ _ h)
     | (rename_i sl hh _ _ _ _ _ _ heq
        have := treeInv_attach sl hh h; rw [heq] at this; exact this)
